@@ -465,13 +465,16 @@ def _analyze_simple_command(
 
         # Skip numeric arguments and flags until we find the actual command
         j = 1
+        seen_duration = False
         while j < len(tokens):
             token = tokens[j]
-            if token.isdigit() or token.replace(".", "").isdigit():
-                j += 1
-                continue
-            if base == "timeout" and _TIMEOUT_DURATION.fullmatch(token):
-                # timeout 30s cmd: the duration is not the command
+            if base == "timeout" and not seen_duration and (
+                token.isdigit()
+                or token.replace(".", "").isdigit()
+                or _TIMEOUT_DURATION.fullmatch(token)
+            ):
+                # timeout 30s cmd: the duration (one word) is not the command
+                seen_duration = True
                 j += 1
                 continue
             if token in _WRAPPER_FLAGS_WITH_ARG.get(base, ()):
